@@ -72,12 +72,13 @@ Fixpoint split_on (sep : char) (s : str) (cur : str) : list str :=
   | c :: r => if c =? sep then rev cur :: split_on sep r [] else split_on sep r (c :: cur)
   end.
 
-(* parse_value(value) = parse(value.strip(), {'value': True})[0].value *)
+(* parse_value(value): props = parse(value.strip(), {'value': True});
+   props[0].value if props else []   (repaired: an empty alternative used to raise IndexError) *)
 Definition parse_value (value : str) : res (list cssvalue) :=
   let* props := css_parse true (strip value) in
   match props with
   | p :: _ => Ok (pvalue p)
-  | [] => Internal IK_Index
+  | [] => Ok []
   end.
 
 Fixpoint map_res {A B} (f : A -> res B) (l : list A) : res (list B) :=
